@@ -10,8 +10,9 @@ LEVEL_TEXT = ("Static analysis of the type-checked MIR of /repo: the next packet
               "in a Package::dump impl is dominated by record_frame on the same writer, and the packet writers' record_frame "
               "marks the guard on every path - so a packet carrying at least one frame always consumes its number; the guard "
               "has no Drop or Clone impl. Necessary structural conditions on all paths.")
-NOT_DECIDED = ["PacketNumber::decode reconstruction arithmetic (RFC 9000 A.3) and that the sender's largest_acked is the one the "
-               "receiver's window is centred on: value-level (only the A.2 width table of encode is decided, R4)",
+NOT_DECIDED = ["that the sender's largest_acked is the one the receiver's window is centred on, and the bit-masking that forms the "
+               "candidate in PacketNumber::decode: value-level (the A.2 width table of encode and the window operands of decode are "
+               "decided, R4/R5)",
                "interleaving across paths beyond mutual exclusion by the journal mutex"]
 
 SJ = "qrecovery::journal::sent"
@@ -26,6 +27,8 @@ def run(ctx):
                    "nframes == 0); every put_frame in a Package::dump is dominated by record_frame; PacketWriter::record_frame "
                    "marks the guard on every path")
     ctx.rule("R3", "abandoned assembly consumes nothing: NewPacketGuard has no Drop impl")
+    ctx.rule("R5", "reconstruction window (RFC 9000 A.3): PacketNumber::decode moves the candidate by a FULL window (1 << nbits) and "
+                   "decides to do so by comparing with expected -/+ HALF a window; operand classes extracted by def-use")
     ctx.rule("R4", "truncation width table (RFC 9000 A.2): the guard under which PacketNumber::encode picks a w-bit encoding "
                    "bounds the distance d = pn - largest_acked by 2*d < 2^w (affine guard extraction + constant arithmetic)")
 
@@ -180,5 +183,65 @@ def run(ctx):
             ctx.ob("R4", "%s|%s chosen only when 2*(pn - largest_acked) < 2^%d" % (enc.short, var, w), ok, enc.where(line),
                    "%s — a narrower encoding than the window needs makes the receiver reconstruct a different packet number "
                    "(wrong nonce: the packet is undecryptable) once that many packets are unacknowledged" % why)
+    # ---------------------------------------------------------------- R5
+    dec = ctx.anchor("R5", "qbase::packet::number::PacketNumber::decode")
+    if dec:
+        def wclass(op, depth=6):
+            """FULL = 1 << nbits ; HALF = FULL / 2 | FULL >> 1 ; else None"""
+            p_ = op_place(op)
+            if p_ is None or depth < 0:
+                return None
+            if len(p_) == 2 and p_[1] == ".0":
+                ds_ = [rv_ for (bb_, jj_, rv_) in dec.defs_of(p_[0]) if jj_ != "term"]
+            elif len(p_) == 1:
+                ds_ = [rv_ for (bb_, jj_, rv_) in dec.defs_of(p_[0]) if jj_ != "term"]
+            else:
+                return None
+            if len(ds_) != 1:
+                return None
+            rv_ = ds_[0]
+            if rv_[0] == "use":
+                return wclass(rv_[1], depth - 1)
+            if rv_[0] == "cast":
+                return wclass(rv_[2], depth - 1)
+            if rv_[0] == "bin":
+                o_ = rv_[1].replace("WithOverflow", "").replace("Unchecked", "")
+                if o_ == "Shl" and const_int(rv_[2]) == 1 and op_place(rv_[3]) is not None:
+                    return "FULL"
+                if o_ == "Div" and const_int(rv_[3]) == 2 and wclass(rv_[2], depth - 1) == "FULL":
+                    return "HALF"
+                if o_ == "Shr" and const_int(rv_[3]) == 1 and wclass(rv_[2], depth - 1) == "FULL":
+                    return "HALF"
+            return None
+        found = {}
+        for i, t in dec.calls():
+            if re.search(r"::checked_sub$", callee(t)) and len(t["args"]) == 2:
+                found["lower bound: expected - ?"] = wclass(t["args"][1])
+        for (i, j, p, rv, line) in dec.assigns():
+            if rv[0] == "bin" and rv[1] in ("Gt", "Ge", "Lt", "Le"):
+                for o in (rv[2], rv[3]):
+                    q = op_place(o)
+                    if q is None:
+                        continue
+                    for og in dec.trace_local(q[0]) if len(q) == 1 else [("place", q)]:
+                        if og[0] == "place" and len(og[1]) == 2 and og[1][1] == ".0":
+                            for (bb, jj, rv2) in dec.defs_of(og[1][0]):
+                                if jj != "term" and rv2[0] == "bin" and rv2[1] == "AddWithOverflow":
+                                    c = wclass(rv2[3]) or wclass(rv2[2])
+                                    if c:
+                                        found["upper bound: expected + ?"] = c
+        for (i, j, p, rv, line) in dec.assigns():
+            if p == [0] and rv[0] == "use":
+                q = op_place(rv[1])
+                if q is not None and len(q) == 2 and q[1] == ".0":
+                    for (bb, jj, rv2) in dec.defs_of(q[0]):
+                        if jj != "term" and rv2[0] == "bin" and rv2[1] in ("AddWithOverflow", "SubWithOverflow"):
+                            found["adjust %s ?" % ("up: candidate +" if rv2[1].startswith("Add") else "down: candidate -")] = wclass(rv2[3]) or wclass(rv2[2])
+        want = {"lower bound: expected - ?": "HALF", "upper bound: expected + ?": "HALF", "adjust up: candidate + ?": "FULL", "adjust down: candidate - ?": "FULL"}
+        for k, v in want.items():
+            ctx.ob("R5", "%s|%s is %s" % (dec.short, k, v), found.get(k) == v, dec.where(),
+                   "operand class found: %s (FULL = 1 << nbits, HALF = FULL / 2) — with any other window a packet that arrives after a gap "
+                   "at a window boundary is reconstructed one window off, fails authentication (wrong nonce) or is rejected as too old, "
+                   "and so is every later packet of that space" % found.get(k))
     ctx.assume("IndexDeque::largest() == offset + len (value-level)")
     ctx.assume("the journal Mutex serialises assemblies of one space (std::sync::Mutex contract)")
